@@ -6,7 +6,7 @@ import ast
 from typing import List, Optional, Set, Tuple
 
 from ..cfg import CFG
-from ..model import Func, own_nodes, unparse
+from ..model import AnalysisError, Func, own_nodes, unparse
 from ..pipeline import Pipeline
 from ..rows import RowFlow
 from ..util import arg_of, assignments_to, calls, const_str
@@ -480,8 +480,66 @@ def rule_p5(ctx, nx, draws) -> None:
                     ctx.finding("C05-P5", "DataLoader.%s:stop-flag:%s" % (m.name, t.attr), m.loc(n), "the flag that ends the stream is set outside a handler of the source's StopIteration (%s): if the value it is computed from is off by one row, the remaining rows are never delivered" % unparse(n)[:70])
 
 
+def rule_p9(ctx) -> None:
+    """The reagent templates are read by constant keys inside the pipeline; a template that lacks one raises KeyError, and
+    the pipeline's handler then drops every row of the batch (known finding P3).  Reader and table must agree: every
+    template (and variant) has every key the curation code subscripts, and every template a compound class names exists."""
+    import json
+    import os
+
+    ctx.rule("C05-P9", "every shipped reagent template has the keys the curation code reads; every referenced template exists", 7)
+    prog = ctx.prog
+    base = os.path.join(ctx.repo, "synrbl", "SynChemImputer")
+    try:
+        rt = json.load(open(os.path.join(base, "reaction_template.json")))
+        ct = json.load(open(os.path.join(base, "compounds_template.json")))
+    except (OSError, ValueError) as e:
+        raise AnalysisError("reagent template tables unreadable: %s" % e)
+    readers = {"reduction": "synrbl.SynChemImputer.curate_reduction", "oxidation": "synrbl.SynChemImputer.curate_oxidation"}
+    for kind, modname in readers.items():
+        mod = prog.modules.get(modname)
+        ctx.require(mod is not None, "module %s vanished" % modname)
+        # leaf keys: constant string subscripts at the end of a chain rooted at the reaction_templates table
+        leaf = set()
+        for n in ast.walk(mod.tree):
+            if isinstance(n, ast.Subscript) and isinstance(n.slice, ast.Constant) and isinstance(n.slice.value, str):
+                root = n.value
+                depth = 0
+                while isinstance(root, ast.Subscript):
+                    root = root.value
+                    depth += 1
+                if isinstance(root, ast.Name) and root.id == "reaction_templates" and n.slice.value not in rt and depth >= 1:
+                    leaf.add(n.slice.value)
+        ctx.require(leaf, "%s no longer reads the reaction templates by constant keys" % modname)
+        ctx.require(kind in rt and kind in ct, "template tables lost the %r section" % kind)
+
+        def missing(node, path):
+            if isinstance(node, dict) and leaf <= set(node):
+                return []
+            if isinstance(node, dict) and node and all(isinstance(v, dict) for v in node.values()):
+                out = []
+                for k, v in node.items():
+                    out += missing(v, path + [k])
+                return out
+            return [(path, sorted(leaf - set(node)) if isinstance(node, dict) else sorted(leaf))]
+
+        for tname, t in sorted(rt[kind].items()):
+            miss = missing(t, [tname])
+            ctx.instance("C05-P9", "%s/%s has %s" % (kind, tname, sorted(leaf)), "synrbl/SynChemImputer/reaction_template.json", ok=not miss)
+            for path, keys in miss:
+                ctx.finding("C05-P9", "reaction_template:%s/%s:missing:%s" % (kind, "/".join(path), ",".join(keys)), "synrbl/SynChemImputer/reaction_template.json", "template %s/%s lacks the key(s) %s that %s subscripts: the KeyError leaves the pipeline through the batch handler and every row of the batch is lost" % (kind, "/".join(path), keys, modname.split(".")[-1]))
+        for cls_, names in sorted(ct[kind].items()):
+            unknown = [x for x in names if x not in rt[kind]]
+            ctx.instance("C05-P9", "%s/%s -> %s" % (kind, cls_, names), "synrbl/SynChemImputer/compounds_template.json", ok=not unknown)
+            for x in unknown:
+                ctx.finding("C05-P9", "compounds_template:%s/%s:unknown-template:%s" % (kind, cls_, x), "synrbl/SynChemImputer/compounds_template.json", "compound class %s/%s names template %s, which reaction_template.json does not define" % (kind, cls_, x))
+        if "other" not in ct[kind]:
+            ctx.finding("C05-P9", "compounds_template:%s:no-fallback" % kind, "synrbl/SynChemImputer/compounds_template.json", "the fallback class 'other' that the curation code subscripts is missing")
+
+
 def check(ctx) -> None:
     pl = Pipeline(ctx)
+    rule_p9(ctx)
     rule_p1(ctx, pl)
     rule_p2(ctx)
     rule_p3(ctx)
@@ -490,3 +548,8 @@ def check(ctx) -> None:
     from . import c06
 
     c06.rule_b2(ctx, pl, "C05-P6")
+    # P8: the recorded input of a row is its own reaction: a copy of the same frame's column, taken after the rows were
+    # selected and renumbered (shared with C02-T2)
+    from . import c02
+
+    c02.rule_t2(ctx, pl, "C05-P8")
